@@ -405,8 +405,8 @@ def _int_arg_proved_digits(fn, g, call):
         if isinstance(e, ast.Call) and A.call_target(e) == (None, 'not_match_re') and len(e.args) >= 2 \
                 and A.const(e.args[0]) in ('DT', 'TM') and path_of(e.args[1]) == v and edge == 'F':
             digits = True
-        if isinstance(e, ast.Compare) and isinstance(e.ops[0], ast.In) and norm(e.left) == 'len(%s)' % v and edge == 'T' \
-                and isinstance(e.comparators[0], (ast.Tuple, ast.List)):
+        if isinstance(e, ast.Compare) and ((isinstance(e.ops[0], ast.In) and edge == 'T') or (isinstance(e.ops[0], ast.NotIn) and edge == 'F')) \
+                and norm(e.left) == 'len(%s)' % v and isinstance(e.comparators[0], (ast.Tuple, ast.List)):
             lens = [A.const(x) for x in e.comparators[0].elts]
     if not digits:
         return False, 'no dominating digits-only test on %s' % v
@@ -568,17 +568,21 @@ def _date_rule(ctx):
     rejecting = {nd.id for nd in g.nodes if nd.kind == 'raise' or (nd.kind == 'return' and A.const(nd.ast.value) is False)}
     funcs = {'int': int, 'len': len}
     cnt = [0]
+    # constant tables of the module (a month-length table, for instance) are part of the closed environment
+    MODC = {k: v for k, v in A.module_constants(ctx.mod('validation').tree).items() if isinstance(v, (A.FrozenDict, tuple, frozenset))}
 
     def rejected(y, m, d):
         cnt[0] += 1
         try:
-            vis = explore(g, {'year': y, 'month': m, 'day': d}, funcs=funcs, start=start, unknown='stop', on_unknown=_unknown)
+            env0 = dict(MODC)
+            env0.update({'year': y, 'month': m, 'day': d})
+            vis = explore(g, env0, funcs=funcs, start=start, unknown='stop', on_unknown=_unknown)
         except RuntimeError as e:
             raise AnalysisError('is_valid_date: %s' % e)
         return bool(vis & rejecting)
 
     def _unknown(nd, env):
-        if any(isinstance(x, ast.Name) and (x.id in FLD or x.id in env) for x in ast.walk(nd.ast)):
+        if any(isinstance(x, ast.Name) and (x.id in FLD or (x.id in env and x.id not in MODC)) for x in ast.walk(nd.ast)):
             raise AnalysisError('is_valid_date: a test on the date fields cannot be evaluated: %s' % norm(nd.ast))
 
     where = ctx.floc(fn0, start.stmt if start.stmt is not None else fn0)
@@ -841,23 +845,51 @@ def r5_dispatch(ctx):
                 bad.append('%s(...) = %s gives %s' % (callee, answer, sorted(map(str, vals))))
         yield Ob('validation:IsValidDataType[%s] failed recogniser rejects' % lab, not bad, ctx.floc(fn),
                  '' if not bad else 'the verdict for type %s is not that of %s: %s' % (lab, callee, '; '.join(bad)))
-    # RD8
-    rd8 = [a for a in arms if a[0] == 'RD8']
-    if not rd8:
-        return
-    body = rd8[0][1]
-    calls = [c for st in body for c in A.calls_in(st) if A.call_target(c) == (None, 'IsValidDataType')]
-    ok = len(calls) == 2 and all(len(c.args) >= 2 and A.const(c.args[1]) == 'D8' for c in calls) \
-        and len({norm(c.args[0]) for c in calls}) == 2
-    yield Ob('validation:IsValidDataType[RD8] validates both halves as D8', ok, ctx.floc(fn, rd8[0][3]),
-             '' if ok else 'recursive calls are %s' % [norm(c) for c in calls])
-    conj = any(isinstance(n, ast.BoolOp) and isinstance(n.op, ast.And) and sum(1 for c in calls if any(x is c for x in ast.walk(n))) == 2
-               for st in body for n in ast.walk(st))
-    yield Ob('validation:IsValidDataType[RD8] both halves must be valid', conj, ctx.floc(fn, rd8[0][3]),
-             '' if conj else 'the two results are not combined with `and`')
-    rej = any(isinstance(s, ast.Return) and A.const(s.value) is False for st in body for s in ast.walk(st))
-    yield Ob('validation:IsValidDataType[RD8] value without hyphen is rejected', rej, ctx.floc(fn, rd8[0][3]),
-             '' if rej else 'no `return False` in the RD8 branch')
+    # RD8 = two D8 dates joined by exactly one hyphen: decided by constant propagation through the function for values with
+    # 0, 1, 2 and 3 hyphens, the recursive call answered by an oracle per half
+    def rd8(val, answers):
+        asked = []
+
+        def oracle(v_, t_, *rest):
+            asked.append((v_, t_))
+            return answers.get(v_, False)
+        funcs = {'match_re': lambda *a_: None, 'not_match_re': lambda *a_: None, 'is_valid_date': lambda *a_: None, 'is_valid_time': lambda *a_: None,
+                 'isinstance': lambda *a_: True, 'IsValidDataType': oracle}
+        outs = []
+
+        def on_node(nd, env):
+            if nd.kind == 'return':
+                try:
+                    outs.append(bool(A.ev(nd.ast.value, env, funcs)) if nd.ast.value is not None else None)
+                except (A.NotClosed, TypeError, ValueError):
+                    outs.append('?')
+
+        def unk(nd, env):
+            raise AnalysisError('IsValidDataType[RD8]: a test cannot be decided for the value %r: %s' % (val, norm(nd.ast)))
+        try:
+            explore(g, {'data_type': 'RD8', 'str_val': val, 'string_types': str, 'charset': 'B', 'icvn': '00401'}, funcs=funcs, on_node=on_node, on_unknown=unk)
+        except RuntimeError as e:
+            raise AnalysisError('IsValidDataType: %s' % e)
+        return set(outs), asked
+    bad_h = []
+    for val in ('X', '', 'A-B-C', 'A-B-C-D', '--'):
+        outs, _asked = rd8(val, {'A': True, 'B': True, 'C': True, 'D': True, 'X': True, '': True})
+        if outs != {False}:
+            bad_h.append('%r gives %s' % (val, sorted(map(str, outs))))
+    rej = not bad_h
+    yield Ob('validation:IsValidDataType[RD8] value without hyphen is rejected', rej, ctx.floc(fn),
+             '' if rej else 'a value that is not two parts joined by one hyphen is not rejected: %s' % bad_h[0])
+    bad_b = []
+    halves_ok = True
+    for ansA, ansB in ((True, True), (True, False), (False, True), (False, False)):
+        outs, asked = rd8('A-B', {'A': ansA, 'B': ansB})
+        if outs != {ansA and ansB}:
+            bad_b.append('halves valid=%s/%s give %s' % (ansA, ansB, sorted(map(str, outs))))
+        if ansA and ansB and sorted(asked) != [('A', 'D8'), ('B', 'D8')]:
+            halves_ok = False
+    yield Ob('validation:IsValidDataType[RD8] validates both halves as D8', halves_ok, ctx.floc(fn),
+             '' if halves_ok else 'for the value A-B the recogniser is asked %s' % sorted(asked))
+    yield Ob('validation:IsValidDataType[RD8] both halves must be valid', not bad_b, ctx.floc(fn), '' if not bad_b else bad_b[0])
 
 
 RULES = [
